@@ -222,7 +222,7 @@ def n_random(tier):
 
 def random_case(rng, tier):
     if rng.random() < 0.8:
-        allops = OPS + [(k, w, n) for k in ("insert", "replace") for w in ("first", "last") for n in (" ", "   ", "\t")] + [("append", n) for n in (" ", "  ", "\t")] + \
+        allops = OPS + [(k, w, n) for k in ("insert", "replace") for w in ("first", "last") for n in (" ", "   ", "\t")] + [("append", n) for n in (" ", "  ", "\t", "_A", "__a__", "É", "a b")] + [("insert", "first", n) for n in ("_A", "É", "é")] + \
             [("insert", "last", n) for n in NAMES] + [("replace", "last", n) for n in NAMES] + \
             [("replace", "mid", n) for n in NAMES] + [("pop", "mid"), ("del_key", "first"), ("del_key", "last")] + \
             [("attr_new", n) for n in ("A", "a", "B", "Z9")] + [("attr_replace", "first", n) for n in NAMES] + [("attr_replace", "last", "A")]
